@@ -92,11 +92,23 @@ fn check_ranges(rep: &mut Report, tag: &str, hay: &str, out: &str, label: &str) 
 /// `focus` ∈ C01 C02 C03 C04 C05 C06 C13.
 pub fn engine(rep: &mut Report, focus: &str, n: usize, seed: u64, thorough: bool) {
     let mut rng = Rng::new(seed);
-    let cfg = GenCfg { max_depth: if thorough { 4 } else { 3 }, ..GenCfg::default() };
+    let cfg = GenCfg { max_depth: if thorough { 4 } else { 3 }, first_term_bias: focus == "C04", ..GenCfg::default() };
     let mut feats_seen: BTreeSet<&'static str> = BTreeSet::new();
     let mut done = 0usize;
     while done < n {
-        let Some(c) = gen_case(&mut rng, &cfg, rep, None) else { continue };
+        // C04: case-insensitive and v-mode patterns are where lead bytes of a match can differ from the pattern's
+        let forced = if focus == "C04" && rng.chance(1, 2) {
+            let mut f = Flags::random(&mut rng);
+            f.i = true;
+            if rng.chance(1, 2) {
+                f.u = false;
+                f.v = true;
+            }
+            Some(f)
+        } else {
+            None
+        };
+        let Some(c) = gen_case(&mut rng, &cfg, rep, forced) else { continue };
         let mut feats = BTreeSet::new();
         ast::features(&c.node, &mut feats);
         for f in &feats {
